@@ -475,9 +475,10 @@ void vp_finish(void) {
   pthread_mutex_lock(&g_cold);  // wait out concurrent cold-path writers
   pthread_mutex_unlock(&g_cold);
   const long nv = atomic_load(&g_nviol);
-  write_result(g_inconclusive ? "inconclusive" : (nv ? "violation" : "ok"));
+  // a recorded violation is definite; a later wall-clock stop of the same (now wedged) process does not undo it
+  write_result(nv ? "violation" : (g_inconclusive ? "inconclusive" : "ok"));
   fflush(stderr);
-  _exit(g_inconclusive ? 3 : (nv ? 1 : 0));
+  _exit(nv ? 1 : (g_inconclusive ? 3 : 0));
 }
 
 void vp_inconclusive(const char* fmt, ...) {
@@ -505,12 +506,16 @@ static void* wd_main(void* arg) {
   const long q_need = vp_param("quiesce_samples", 4);
   uint64_t last_p = atomic_load(&vp_progress_ctr);
   long base_h = 0, base_rx = 0;
+  int viol_linger = 0;
   const long relax_limit = vp_param("relax_limit", 4000000000L);
   int q_streak = 0;
   for (;;) {
     vp_real_sleep_us(5000);
     if (atomic_load(&g_done) || atomic_load(&g_finishing)) return NULL;
     if (g_periodic) g_periodic();
+    // once a violation is on record the verdict is decided; give the harness a moment to end normally, then stop
+    // (this only bounds how long a wedged process lingers, it never creates or changes a verdict)
+    if (vp_violation_count() > 0 && ++viol_linger > 600) vp_finish();
     if (g_runtime_mode && vp_cfg.mode != VP_MODE_NOHOOK) {
       if (vp_ghost_quiescent()) {
         if (++q_streak >= q_need) {
